@@ -19,20 +19,22 @@ NPROC = int(os.environ.get("VERIF_NPROC", "16"))
 
 PORTFOLIO = [
     # (abstract strings?, options, share of the budget)
-    (True, {}, 0.15),
-    (True, {"smt.qi.eager_threshold": 100.0}, 0.15),
-    (False, {}, 0.35),
+    (True, {"smt.mbqi": False}, 0.15),
+    (True, {}, 0.1),
+    (True, {"smt.mbqi": False, "smt.qi.eager_threshold": 100.0}, 0.15),
+    (False, {}, 0.3),
     (False, {"smt.qi.eager_threshold": 100.0}, 0.15),
-    (True, {"smt.mbqi": False, "smt.qi.eager_threshold": 1000.0}, 0.1),
-    (False, {"smt.mbqi": False}, 0.1),
+    (False, {"smt.mbqi": False}, 0.15),
 ]
 
 
 def _solve_one(ob, timeout_ms, seed):
     t_start = time.time()
     if ob.expect == "sat":
+        # vacuity: the hypotheses must not be refutable (a short E-matching attempt; `unknown` = not shown vacuous)
         s = z3.Solver()
-        s.set("timeout", timeout_ms)
+        s.set("timeout", min(timeout_ms, 2000))
+        s.set("smt.mbqi", False)
         for h in ob.hyps:
             s.add(h)
         r = s.check()
